@@ -64,6 +64,9 @@ FPEffect(p, r, o) ==
     [] o.op = "Dot"         -> [r |-> r, res |-> Mod(FoldSet(LAMBDA i, acc : acc + Mod(Val(r[o.a], i) * Val(r[o.b], i), p), 0,
                                                           Nz(r[o.a]) \cap Nz(r[o.b])), p)]
     [] o.op = "Clear"       -> [r |-> [r EXCEPT ![o.d] = Zero], res |-> -1]
+    \* move assignment: the destination takes the value; the recorder clears a moved-from source (its content is unspecified);
+    \* a = std::move(a) keeps the value
+    [] o.op = "MoveAssign"  -> [r |-> IF o.a = o.d THEN r ELSE [r EXCEPT ![o.d] = r[o.a], ![o.a] = Zero], res |-> -1]
 \* observed entries <<index, value>> of one register
 EntriesOK(p, es) == /\ \A k \in 1..(Len(es) - 1) : es[k][1] < es[k + 1][1]
                     /\ \A k \in 1..Len(es) : es[k][2] \in 1..(p - 1)
